@@ -3,12 +3,15 @@
 package timesim
 
 import (
+	"crypto/x509"
 	"crypto/sha256"
 	"encoding/hex"
 	"encoding/json"
 	"fmt"
 	"io"
 	"net/http"
+	"os"
+	"path/filepath"
 	"sort"
 	"strings"
 	"testing"
@@ -17,6 +20,7 @@ import (
 	"github.com/dadrus/heimdall/internal/verifsim/bubble"
 	"github.com/dadrus/heimdall/internal/verifsim/simcore"
 	"github.com/dadrus/heimdall/internal/verifsim/simkeys"
+	"github.com/go-jose/go-jose/v4"
 )
 
 // C11: cached results are reused exactly for requests equal in all they depend on.
@@ -55,7 +59,11 @@ type c11Scenario struct {
 	usesExtra2 bool  // X-Extra2 reaches the party
 	viaOutputs bool  // the extra client header reaches the party only through .Outputs of an earlier (uncached) step
 	variation  string // name of the drawn variation of the basic configuration ("" = none)
+	jwks       []byte // jwt-authn: the key set the identity provider publishes
+	cleanup    func()
 }
+
+var c11JWTKey = simkeys.FixtureKey("ec256")
 
 func c11Digest(req *http.Request, body []byte) string {
 	h := sha256.New()
@@ -75,6 +83,8 @@ func c11Digest(req *http.Request, body []byte) string {
 	return hex.EncodeToString(h.Sum(nil))[:16]
 }
 
+var c11CurJWKS []byte
+
 // installParties registers the stateless simulated parties.
 func c11Parties(e *env) {
 	// identity provider for the (uncached) subject-producing authenticator and for the introspection scenario
@@ -82,6 +92,8 @@ func c11Parties(e *env) {
 		body, _ := io.ReadAll(req.Body)
 		w.Header().Set("Content-Type", "application/json")
 		switch req.URL.Path {
+		case "/jwks":
+			w.Write(c11CurJWKS)
 		case "/introspect":
 			vals := parseForm(string(body))
 			user := vals["token"]
@@ -212,7 +224,7 @@ func drawKeys(s *simcore.Source, pool map[string]string, min int, label string, 
 }
 
 func c11Build(s *simcore.Source) c11Scenario {
-	kinds := []string{"remote-authorizer", "contextualizer", "generic-authn", "introspection", "jwt-finalizer", "client-credentials"}
+	kinds := []string{"remote-authorizer", "contextualizer", "generic-authn", "introspection", "jwt-finalizer", "client-credentials", "jwt-authn"}
 	sc := c11Scenario{kind: simcore.Pick(s, kinds, "scenario")}
 	echo := `
     - id: echo
@@ -414,6 +426,31 @@ func c11Build(s *simcore.Source) c11Scenario {
 		}
 		sc.rules = fmt.Sprintf(c11RuleTpl, step1, step2)
 		sc.describe = fmt.Sprintf("headers=%v", hkeys)
+	case "jwt-authn":
+		// two jwt authenticators on one key-set endpoint which differ in how far they trust the published key: the
+		// certificate of the key chains to CA 1; the second authenticator trusts CA 2 only
+		sc.party = "idp"
+		dir, _ := os.MkdirTemp("", "verif-c11-jwt-")
+		sc.cleanup = func() { os.RemoveAll(dir) }
+		ca1Key, ca2Key := simkeys.FixtureKey("ec256ca"), simkeys.FixtureKey("ec384")
+		ca1, ca1DER := simkeys.MintCA(ca1Key, time.Now().Add(48*time.Hour))
+		_, ca2DER := simkeys.MintCA(ca2Key, time.Now().Add(48*time.Hour))
+		os.WriteFile(filepath.Join(dir, "ca1.pem"), simkeys.PEMCert(ca1DER), 0o600)
+		os.WriteFile(filepath.Join(dir, "ca2.pem"), simkeys.PEMCert(ca2DER), 0o600)
+		leaf, _ := simkeys.MintLeaf(ca1, ca1Key, c11JWTKey, time.Now().Add(24*time.Hour), 2)
+		jwk := jose.JSONWebKey{Key: c11JWTKey.Public(), KeyID: "k1", Algorithm: string(simkeys.AlgFor(c11JWTKey)), Use: "sig", Certificates: []*x509.Certificate{leaf}}
+		sc.jwks = simkeys.JWKSJSON(jwk)
+		authn := func(id, trust string) string {
+			return "    - id: " + id + "\n      type: jwt\n      config:\n        jwks_endpoint:\n          url: http://idp/jwks\n        assertions:\n          issuers: [ \"iss1\" ]\n" + trust + "        cache_ttl: 5m\n"
+		}
+		first := "        trust_store: " + filepath.Join(dir, "ca1.pem") + "\n"
+		if s.Draw(2, "first-validates") == 0 {
+			first = "        validate_jwk: false\n"
+		}
+		sc.mech = "mechanisms:\n  authenticators:\n" + authn("mut", first) + authn("mut2", "        trust_store: "+filepath.Join(dir, "ca2.pem")+"\n") + "  finalizers:" + echo
+		sc.rules = fmt.Sprintf(c11RuleTpl, "    - authenticator: mut\n    - finalizer: echo", "    - authenticator: mut2\n    - finalizer: echo")
+		sc.overrides = "twin-mechanism(trust in the key's certificate)"
+		sc.describe = "first=" + strings.TrimSpace(strings.SplitN(first, ":", 2)[0])
 	case "jwt-finalizer":
 		sc.party = ""
 		sc.mech = "mechanisms:\n  authenticators:" + c11Authn + "  finalizers:\n    - id: mut\n      type: jwt\n      config:\n        signer:\n          name: heimdall\n          key_store:\n            path: " + simkeys.FixturePath("ec256") +
@@ -474,6 +511,10 @@ func normaliseToken(h string) string {
 
 func c11Do(e *env, sc c11Scenario, q c11Req) c11Obs {
 	hdr := map[string]string{"Authorization": "Bearer " + q.user}
+	if sc.kind == "jwt-authn" {
+		now := time.Now().Unix()
+		hdr["Authorization"] = "Bearer " + simkeys.SignJWT(c11JWTKey, "k1", map[string]any{"iss": "iss1", "sub": q.user, "iat": now - 1, "exp": now + 3600})
+	}
 	if q.extra != "" {
 		hdr["X-Extra"] = q.extra
 	}
@@ -487,7 +528,7 @@ func c11Do(e *env, sc c11Scenario, q c11Req) c11Obs {
 	}
 	if sc.party != "" {
 		o.partyN = res.calls[sc.party]
-		if sc.kind != "generic-authn" && sc.kind != "introspection" && sc.party == "idp" {
+		if sc.kind != "generic-authn" && sc.kind != "introspection" && sc.kind != "jwt-authn" && sc.party == "idp" {
 			o.partyN = 0
 		}
 	}
@@ -498,6 +539,10 @@ func c11Sim(r *simcore.Run) {
 	bubble.Run(r, func() {
 		s := r.Src
 		sc := c11Build(s)
+		if sc.cleanup != nil {
+			defer sc.cleanup()
+		}
+		c11CurJWKS = sc.jwks
 		// request history: each new request is an earlier one with at most one component changed
 		users, ids, rules, extras, extras2 := []string{"alice", "bob"}, []string{"1", "2"}, []string{"a", "b"}, []string{"x", "y", "xb"}, []string{"by", "y"}
 		n := 3 + s.Draw(8, "nreq")
